@@ -86,6 +86,8 @@ def oracle(rng: random.Random, n: int):
     fails = []
 
     def close(a, b, rel=1e-11):
+        if not (math.isfinite(a) and math.isfinite(b)):
+            return False  # every quantity of this property is finite for finite positive arguments
         return abs(a - b) <= rel * max(abs(a), abs(b), 1e-300)
 
     for d in (1, 2, 3):
